@@ -134,4 +134,36 @@ func init() {
 			return chunk("hist", "prod", n, pick(tier, 50, 1000), Job{Procs: 1, Timeout: 40 * time.Minute})
 		},
 	})
+	register(&Plan{
+		Prop:  "C10",
+		Level: "exploration",
+		Rule: "one case = one history of 5-60 operations (New named/anonymous/colliding with options, 11 With* calls, 11 Set* calls incl. writers, skip, context keys) applied to random loggers of a growing forest (two detached roots and a fresh default logger); a reference tree model is advanced in lock-step. " +
+			"After EVERY operation: (isolation, model-free) every logger other than the receiver of a Set* emits byte-identical WriteThru probe output to the same destination as before; (model) every logger's Level/JSONMode/ColorMode/Skip/Name/Parent/Root and its decoded probe (format class, name, timestamp in the modelled zone/layout, attributes, destination incl. redirected stdout) equal the model; " +
+			"context keys through a PrintContext probe; Each/Sublogger against the model subtree. Sub-workload deflevel (own pristine processes, both process modes): package New starts parentless, colored, at the package default level (Warn in production, Debug under go test) and follows SetLevel. non-trivial = completed history; distinct = by history",
+		Assumptions: []string{"default flags (LlocalTime set): an unset UTC mode means the instant's own zone", "SetTimeFormat is only called with explicit non-empty layouts"},
+		Floors:      map[string]int64{"operations": 2000, "isolation_comparisons": 10000, "model_comparisons": 10000, "lookups": 100, "default_level_checks": 10},
+		Jobs: func(tier string, seed int64) []Job {
+			n := pick(tier, 600, 40000)
+			js := chunk("tree", "prod", n, pick(tier, 40, 1300), Job{Timeout: 40 * time.Minute})
+			js = append(js, chunk("deflevel", "prod", pick(tier, 4, 40), 1, Job{})...)
+			js = append(js, chunk("deflevel", "test", pick(tier, 4, 40), 1, Job{})...)
+			return js
+		},
+	})
+	register(&Plan{
+		Prop:  "C11",
+		Level: "exploration",
+		Rule: "exh: ALL sequences up to the length bound over (call x target logger): quick = 18 calls x 3 loggers, length <= 2 (2971 sequences); thorough = length <= 3 over 18 calls (160435) ; calls = SetJSONMode/SetColorMode with 0, 1 or 2 boolean arguments, WithJSONMode/WithColorMode variants, New(..) with the mode options; " +
+			"targets = root, child, grandchild of a fresh tree. rand: random sequences of 4-15 calls. After EVERY call, for EVERY logger of the tree (incl. the children created on the way): JSONMode()/ColorMode() == the modelled three-state machine and a probe record classifies ({ / ESC / time=) as that state. non-trivial = every completed sequence; distinct = by sequence",
+		Assumptions: []string{"a call without arguments means true, with several the last wins (as documented)"},
+		Floors:      map[string]int64{"probes_classified": 5000},
+		Exhaustive:  func(string) bool { return true },
+		Jobs: func(tier string, seed int64) []Job {
+			// 54 symbols: lengths <=2 -> 1+54+2916 = 2971 ; <=3 -> 160435
+			n := pick(tier, 2971, 160435)
+			js := chunk("exh", "prod", n, pick(tier, 250, 10100), Job{Timeout: 30 * time.Minute})
+			js = append(js, chunk("rand", "prod", pick(tier, 2000, 50000), pick(tier, 250, 3200), Job{Timeout: 30 * time.Minute})...)
+			return js
+		},
+	})
 }
